@@ -66,11 +66,22 @@ CLAIMS = {
   note="Two routes inside one build; the quadrature and closed forms are the harness's.",
   technique="runtime monitoring: two-route agreement monitor",
   ref="DESIGN.md §2 C14"),
+ "C08": dict(
+  text="Held on the executions observed: on harness-built Gravsoft grids (1-3 bands, angular and projected, 2-40 rows/columns, asymmetric node values) Grid::at reproduces nodes, stays within the four corners inside a cell, agrees with the harness bilinear model (4 ulp of f32), is continuous across cell borders, continues linearly within the half-cell margin and returns None beyond it; grids_at picks the first containing grid, then the first within the margin, and the null grid last; harness-encoded NTv2 trees (1-5 sub grids, grand children, either byte order, arbitrary file order) resolve to the deepest sub grid; gridshift adds 2-band shifts and subtracts 1-band geoid heights forward (inverse the opposite), @optional and @null behave as documented, deformation integrates the ENU velocity rotated into XYZ over dt, and deflection is the finite difference of the geoid.",
+  note="One open known finding: deformation in t_epoch mode applies the opposite sign of the documented equation (see known_findings.json). The harness encoders and the bilinear model are written from the format documentation, not from the decoders.",
+  technique="runtime monitoring: executable reference model (bilinear interpolation, grid selection) over harness-generated grids, queries and operators",
+  ref="DESIGN.md §2 C08"),
  "C09": dict(
   text="Held on the executions observed: no panic, abort or confirmed hang over grammar-generated and byte-mutated definitions (every operator name and gamut key from the hook), macros, PROJ text, hostile coordinates in both directions and direct calls of the ellipsoid/angular/tokenizer APIs, in debug-semantics and release-semantics builds.",
   note="'Never hangs' is restated as bounded progress: a case that burns 10 CPU-seconds is re-run alone for 20 more before it is called a hang. Trusts catch_unwind + the write-ahead log to attribute crashes.",
   technique="runtime monitoring: crash/hang monitor (write-ahead event log, catch_unwind, CPU-time watchdog, supervisor) over hostile workloads",
   ref="DESIGN.md §1.4, §2 C09"),
+ "C15": dict(
+  text="Held on the executions observed: harness-encoded Gravsoft grids (any comment/whitespace/line layout, 1-3 bands, angular or projected) and NTv2 files (both byte orders, 1-6 sub grids in any order) decode to the geometry and node values written, after the documented conventions, the two byte orders decode identically, and the shipped .gsb files equal a plain reading of their .gsa twins; a damage campaign (every 7th truncation length and every 5th header byte x 8 bits of every shipped file below 64 KiB in the quick tier, all of them in the thorough tier; random truncations, overwrites, splices, bit flips, structural damage of sub grid names/parents/counts/increments, degenerate Gravsoft headers, wrong decoder) followed by 96 queries per accepted file never panics, aborts, hangs or allocates more than 64 x input + 16 MiB, in debug-semantics and release-semantics builds.",
+  note="Allocation is observed with a counting global allocator in the harness; out-of-bounds reads would surface as panics (safe Rust). A Miri slice is described in DESIGN.md as secondary evidence only.",
+  technique="runtime monitoring: encode-decode-query round trip against a reference model, plus crash/hang/allocation monitor over a fault-injection campaign on file contents",
+  category="fault_enumeration",
+  ref="DESIGN.md §2 C15"),
  "C19": dict(
   text="Held on the executions observed: write/read round trips, bulk accessors, set_xy/xyz/xyzt, stomp for 15 container kinds plus a user container on the trait defaults (missing dimensions read 0 / NaN or the adapter's fixed values, Coor32 through f32); nth/set_nth out of range give NaN without crashing; typed, angular and bulk accessors, update, fill, new, scale, dot, hypot2/3 and + - * / agree with element-wise definitions on hostile values; ISO-6709 DDDMM.mmm / DDDMMSS.sss encodings, dms_to_dd, dm_to_dd, parse_sexagesimal, normalisation and the dm/dms operators agree with the formulas, on a lattice of [-720, 720] degrees (0.05 deg quick, 1 arc-second thorough) and at random with carries, |angle| < 1 degree and zero-degree components.",
   note="Reference definitions are evaluated in the harness in plain f64; 1e-10 degrees for angle conversions.",
